@@ -232,8 +232,11 @@ def run_once(
 
 
 def sany(module, spec_dir=SPEC_DIR):
+    env = dict(os.environ)
+    if "java.io.tmpdir" not in env.get("JAVA_TOOL_OPTIONS", ""):
+        env["JAVA_TOOL_OPTIONS"] = (env.get("JAVA_TOOL_OPTIONS", "") + " -Djava.io.tmpdir=" + scratch("cinco-sany-")).strip()
     proc = subprocess.run(
-        ["tla-sany", module], cwd=spec_dir, capture_output=True, text=True, timeout=300
+        ["tla-sany", module], cwd=spec_dir, capture_output=True, text=True, timeout=300, env=env
     )
     ok = proc.returncode == 0 and "Semantic errors" not in proc.stdout and "***Parse Error***" not in proc.stdout
     return ok, proc.stdout[-3000:]
